@@ -221,4 +221,48 @@ def certifyC {W : Type} (t : TopoC) (σ : Nat → Node W) : Bool :=
 def certifyFailC {W : Type} (t : TopoC) (σ : Nat → Node W) : Option Nat :=
   (List.range t.nodes.length).find? (fun n => t.side n && !certifyNodeC t n (σ n))
 
+/-! ### literal tables tied to the source by Gen/FilterSoft.lean -/
+
+/-- `ARP.send_arp_request`, statement by statement (`arpRequestTarget`, `arpRequestAllowed`, `arpRequestFrame` follow it) -/
+def sendArpRequestOrder : List String :=
+  ["guard:cached-return", "init:use_default_gateway", "loop:any-interface-network-contains-target",
+   "else:target:=default_gateway-or-return", "resolve:outbound(target)", "guard:network-address-return",
+   "guard:broadcast-address-return", "packet:sender=outbound-interface,target=target", "send:dst=target"]
+
+/-- what `arpSession`, `routerResolveOut` and the exempt branch of `routerArpSoft.process` follow -/
+def routerArpOrder : List String :=
+  ["request:reply-iff-arrival-interface-enabled-and-is-target", "reply:outbound=resolve(reply.target=request.sender)",
+   "resolve:first-enabled-interface-in-network-else-route-next-hop", "process:drop-broadcast", "process:drop-own-address"]
+
+/-- every site under simulator/ that enables an interface, a port, a service or an account (method name `enable`,
+`enable_port`, or `.enabled = True`): set-up code, power-on / start-up completion, link connection, port configuration, and
+two request handlers (lambdas).  None is on the frame-processing path except through the request dispatcher. -/
+def knownEnableSites : List String :=
+  ["domain/account.py:Account.enable: self.enabled = True",
+   "network/airspace.py:IPWirelessNetworkInterface.enable: super().enable",
+   "network/airspace.py:WirelessNetworkInterface.enable: self.enabled = True",
+   "network/container.py:Network.setup_for_episode: network_interface.enable",
+   "network/creation.py:OfficeLANAdder.add_nodes_to_net: router.enable_port",
+   "network/creation.py:OfficeLANAdder.add_nodes_to_net: switch.network_interface[switch_port].enable",
+   "network/hardware/base.py:IPWiredNetworkInterface.enable: super().enable",
+   "network/hardware/base.py:NetworkInterface._init_request_manager.<lambda>: self.enable",
+   "network/hardware/base.py:NetworkInterface.setup_for_episode: self.enable",
+   "network/hardware/base.py:Node.apply_timestep: network_interface.enable",
+   "network/hardware/base.py:Node.connect_nic: network_interface.enable",
+   "network/hardware/base.py:Node.power_on: network_interface.enable",
+   "network/hardware/base.py:WiredNetworkInterface.connect_link: self.enable",
+   "network/hardware/base.py:WiredNetworkInterface.enable: self.enabled = True",
+   "network/hardware/nodes/network/firewall.py:Firewall.configure_dmz_port: self.dmz_port.enable",
+   "network/hardware/nodes/network/firewall.py:Firewall.configure_external_port: self.external_port.enable",
+   "network/hardware/nodes/network/firewall.py:Firewall.configure_internal_port: self.internal_port.enable",
+   "network/hardware/nodes/network/router.py:Router.enable_port: network_interface.enable",
+   "network/hardware/nodes/network/router.py:Router.setup_for_episode: self.enable_port",
+   "network/hardware/nodes/network/wireless_router.py:WirelessRouter.configure_router_interface: self.router_interface.enable",
+   "network/hardware/nodes/network/wireless_router.py:WirelessRouter.configure_wireless_access_point: self.wireless_access_point.enable",
+   "network/networks.py:arcd_uc2_network: router_1.enable_port",
+   "network/networks.py:arcd_uc2_network: router_1.enable_port",
+   "network/networks.py:client_server_routed: router_1.enable_port",
+   "network/networks.py:client_server_routed: router_1.enable_port",
+   "system/services/service.py:Service._init_request_manager.<lambda>: self.enable"]
+
 end Primaite.Filter
